@@ -4,6 +4,7 @@ import (
 	"fmt"
 	"io"
 	"regexp"
+	"regexp/syntax"
 	"sort"
 	"strings"
 	"unicode/utf16"
@@ -66,6 +67,38 @@ type regexpPattern struct {
 
 	regexpWrapper  *regexpWrapper
 	regexp2Wrapper *regexp2Wrapper
+
+	// the pattern may match the empty string (only maintained when regexpWrapper is set)
+	matchesEmpty bool
+}
+
+// canMatchEmpty reports whether re can match the empty string at some position of some input.
+func canMatchEmpty(re *syntax.Regexp) bool {
+	switch re.Op {
+	case syntax.OpNoMatch, syntax.OpCharClass, syntax.OpAnyCharNotNL, syntax.OpAnyChar:
+		return false
+	case syntax.OpLiteral:
+		return len(re.Rune) == 0
+	case syntax.OpCapture, syntax.OpPlus:
+		return canMatchEmpty(re.Sub[0])
+	case syntax.OpRepeat:
+		return re.Min == 0 || canMatchEmpty(re.Sub[0])
+	case syntax.OpConcat:
+		for _, sub := range re.Sub {
+			if !canMatchEmpty(sub) {
+				return false
+			}
+		}
+		return true
+	case syntax.OpAlternate:
+		for _, sub := range re.Sub {
+			if canMatchEmpty(sub) {
+				return true
+			}
+		}
+		return false
+	}
+	return true // empty match, assertions, * and ?
 }
 
 type regexpResult struct {
@@ -160,6 +193,12 @@ func (p *regexpPattern) findAllSubmatchIndex(s String, start int, limit int, sti
 	if p.regexpWrapper == nil {
 		return p.regexp2Wrapper.findAllSubmatchIndex(s, start, limit, sticky, p.unicode)
 	}
+	if p.matchesEmpty && limit != 1 {
+		// Go's FindAll ignores an empty match adjacent to the preceding match, ECMAScript does not
+		// ("b".match(/b*/g) is ["b", ""]).
+		p.createRegexp2()
+		return p.regexp2Wrapper.findAllSubmatchIndex(s, start, limit, sticky, p.unicode)
+	}
 	if start == 0 {
 		a, u := devirtualizeString(s)
 		if u == nil {
@@ -203,6 +242,8 @@ func (p *regexpPattern) clone() *regexpPattern {
 		dotAll:     p.dotAll,
 		sticky:     p.sticky,
 		unicode:    p.unicode,
+
+		matchesEmpty: p.matchesEmpty,
 	}
 	if p.regexpWrapper != nil {
 		ret.regexpWrapper = p.regexpWrapper.clone()
